@@ -45,10 +45,10 @@ def tla_set(xs):
     return '{' + ', '.join('"%s"' % x for x in xs) + '}'
 
 
-def consts(front, ncalls, prefixes, routes, maxconn, maxclock, kinds, allowed):
-    return {'FrontEnd': '"%s"' % front, 'NCalls': ncalls, 'UserPrefixes': tla_set(prefixes),
+def consts(front, ncalls, prefixes, routes, maxconn, maxclock, kinds, allowed, forced=(), verbs=('register', 'unregister')):
+    return {'FrontEnd': '"%s"' % front, 'NCalls': ncalls, 'UserPrefixes': tla_set(prefixes), 'UserVerbs': tla_set(verbs),
             'Routes': '<- R%d' % routes, 'MaxConn': maxconn, 'MaxClock': maxclock,
-            'ReplyKinds': tla_set(kinds), 'Allowed': tla_set(allowed)}
+            'ReplyKinds': tla_set(kinds), 'Allowed': tla_set(allowed), 'Forced': tla_set(forced)}
 
 
 def res_str(r):
@@ -113,7 +113,7 @@ def apply(sc, belief, g, act, args):
         raise ValueError(act)
 
 
-def walk(ctx, front, routes, ncalls, g, w, init, labels, tag):
+def walk(ctx, front, routes, ncalls, g, w, init, labels, tag, learn=None):
     """Returns number of stimuli applied."""
     sc = Scenario(front, ['x', 'y'][:routes], ncalls)
     reported = set()
@@ -144,6 +144,9 @@ def walk(ctx, front, routes, ncalls, g, w, init, labels, tag):
             devs = Walker.necessary(g, belief, 'dev')
             bad = Walker.necessary(g, belief, 'bad')
             report(ctx, front, devs, bad, reported, 'history %s' % json.dumps(done), robj)
+            if learn is not None:
+                learn['has'] |= devs
+                learn['hasnot'] |= Walker.necessary(g, belief, 'nodev')
         bg = sc.background_errors()
         if bg:
             ctx.violation('C17/%s/background-error' % front, 'loop exception handler: %s' % bg[0],
@@ -153,12 +156,34 @@ def walk(ctx, front, routes, ncalls, g, w, init, labels, tag):
     return len(done)
 
 
-def stage_b(ctx, front, name, ncalls, prefixes, routes, maxconn, maxclock, kinds, max_paths=None):
+class _LazyStates(dict):
+    """state id -> parsed state; the dot labels are parsed on first use (most states are never looked at)."""
+    def __init__(self, raw):
+        super().__init__()
+        self.raw = raw
+
+    def __missing__(self, k):
+        from harness import tlaval
+        v = tlaval.parse_state(self.raw[k])
+        self[k] = v
+        return v
+
+    def __len__(self):
+        return len(self.raw)
+
+
+def load_graph(ctx, front, name, cs):
     cfgp = os.path.join(tlc.BUILD, 'NfdReg_g_%s_%s.cfg' % (front, name))
-    tlc.write_cfg(cfgp, constants=consts(front, ncalls, prefixes, routes, maxconn, maxclock, kinds, DEVS_OF[front]),
-                  invariants=['TypeOK', 'ClockBound'])
-    g = graph.dump('NfdReg', cfgp, workers=4, tag='c17g')
+    tlc.write_cfg(cfgp, constants=cs, invariants=['TypeOK', 'ClockBound'])
+    g = graph.dump('NfdReg', cfgp, workers=4, tag='c17g', parse_states=False)
+    g.state = _LazyStates(g.state)
     ctx.add_tlc('NfdReg graph %s/%s (%d edges)' % (front, name, g.n_edges), g.tlc)
+    return g
+
+
+def stage_b(ctx, front, name, cs, routes, ncalls, max_paths=None, learn=None):
+    """learn: dict to be filled with the deviations the implementation necessarily has / has not."""
+    g = load_graph(ctx, front, name, cs)
     w = Walker(g, ENV, proj)
     paths = graph.edge_cover_paths(g, max_len=60, max_paths=max_paths, rng=ctx.rng)
     n = 0
@@ -169,7 +194,7 @@ def stage_b(ctx, front, name, ncalls, prefixes, routes, maxconn, maxclock, kinds
         if key in seen or not labels:
             continue
         seen.add(key)
-        k = walk(ctx, front, routes, ncalls, g, w, init, labels, name)
+        k = walk(ctx, front, routes, ncalls, g, w, init, labels, name, learn)
         n += 1
         ctx.traces += 1
         ctx.evaluations += k
@@ -317,6 +342,7 @@ def record(front, routes, rng, ncalls=8, nev=40):
                 choices += ['Call'] * 4
             if open_cmds:
                 choices += ['FwdReply'] * 4
+                kinds = ALL_KINDS if len(open_cmds) == 1 else [k for k in ALL_KINDS if k != 'silence']
             if sc.face.running and not open_cmds and tasks_done and auto_done and conns < 2 and rng.random() < 0.3:
                 choices += ['Disconnect']
             if not sc.face.running and conns < 2:
@@ -367,13 +393,14 @@ def record(front, routes, rng, ncalls=8, nev=40):
     return {'front': front, 'routes': routes, 'ev': ev}, wire_errors, bg
 
 
-def judge(ctx, front, routes, recs, tag):
+def judge(ctx, front, routes, recs, tag, forced=None):
     tf = os.path.join(tlc.BUILD, 'c17-traces-%s-%s-%d-%s.ndjson' % (tag, front, routes, ctx.tier))
     with open(tf, 'w') as f:
         for r in recs:
             f.write(json.dumps(r) + '\n')
     cfgp = os.path.join(tlc.BUILD, 'NfdRegTrace_%s_%d.cfg' % (front, routes))
-    tlc.write_cfg(cfgp, spec='TSpec', constants=consts(front, 8, ['a', 'b', 'c'], routes, 2, 100000, ALL_KINDS, DEVS_OF[front]),
+    tlc.write_cfg(cfgp, spec='TSpec', constants=consts(front, 8, ['a', 'b', 'c'], routes, 2, 100000, ALL_KINDS,
+                                                       *((forced[1], forced[0]) if forced else (DEVS_OF[front],))),
                   invariants=['TypeOK'], constraints=['Mark'], postcondition='Post')
     r, rejected = tlc.validate_traces('NfdRegTrace', cfgp, tf, tag='c17tr')
     ctx.add_tlc('NfdRegTrace %s routes=%d (%d traces)' % (front, routes, len(recs)), r)
@@ -382,8 +409,24 @@ def judge(ctx, front, routes, recs, tag):
     import re
     from harness import tlaval
     ends = {}
-    for m in re.finditer(r'<<"END", (\d+), (\{[^}]*\}), (\{[^}]*\})>>', r.out):
-        ends.setdefault(int(m.group(1)), []).append((tlaval.parse(m.group(2)), tlaval.parse(m.group(3))))
+    out = r.out
+    pos = 0
+    while True:
+        i0 = out.find('<<', pos)
+        if i0 < 0:
+            break
+        j = out.find('>>', i0)
+        if j < 0:
+            break
+        txt = ' '.join(out[i0:j + 2].split())
+        pos = j + 2
+        if not txt.replace(' ', '').startswith('<<"END",'):
+            continue
+        try:
+            v = tlaval.parse(txt)
+        except ValueError:
+            continue
+        ends.setdefault(int(v[1]), []).append((frozenset(v[2]), frozenset(v[3])))
     rej = {i for i, _ in rejected}
     for i, rec in enumerate(recs, 1):
         robj = {'kind': 'trace', 'rec': rec}
@@ -403,7 +446,7 @@ def judge(ctx, front, routes, recs, tag):
     return rejected
 
 
-def stage_c(ctx, front, routes, n):
+def stage_c(ctx, front, routes, n, forced):
     recs = []
     for _ in range(n):
         rec, werr, bg = record(front, routes, ctx.rng, nev=ctx.rng.choice([12, 25, 40]))
@@ -418,7 +461,7 @@ def stage_c(ctx, front, routes, n):
             ctx.nt(['C', front, routes, [[e['a'], e.get('v'), e.get('p'), e.get('k'), e.get('d')] for e in rec['ev']]])
     ctx.sample({'kind': 'C-trace', 'front': front, 'routes': routes,
                 'events': [[e['a'], e.get('v', e.get('k', ''))] for e in recs[0]['ev']][:20]}, limit=6)
-    judge(ctx, front, routes, recs, 'c')
+    judge(ctx, front, routes, recs, 'c', forced)
     ctx.traces += len(recs)
     ctx.evaluations += sum(len(r['ev']) for r in recs)
 
@@ -426,20 +469,30 @@ def stage_c(ctx, front, routes, n):
 # ------------------------------------------------------------------ stage A
 
 def stage_a(ctx):
-    workers = ctx.pick(4, 16)
+    workers = ctx.pick(4, 8)
     cfgs = []
     for front in ('v2', 'legacy'):
         # concurrency / timestamps: 3 concurrent calls, clock free, three reply kinds
-        cfgs.append((front, 'conc', consts(front, 3, ['a'], 0, 1, ctx.pick(3, 5), ['r200', 'r400', 'silence'], [])))
+        cfgs.append((front, 'conc', consts(front, 3, ctx.pick(['a'], ['a', 'b']), 0, 1, ctx.pick(3, 5), ['r200', 'r400', 'silence'], [])))
         # every reply kind, with and without body
-        cfgs.append((front, 'replies', consts(front, 2, ['a', 'b'], 0, 1, ctx.pick(1, 2), ALL_KINDS, [])))
-        # declared routes, reconnect
-        cfgs.append((front, 'routes', consts(front, ctx.pick(5, 6), ['a'], 2, 2, ctx.pick(1, 2), ['r200', 'r403', 'nack'], [])))
+        cfgs.append((front, 'replies', consts(front, 2, ['a', 'b'], 0, 1, ctx.pick(2, 3), ALL_KINDS, [])))
+        # declared routes, reconnect, a user call in between (the clock bound leaves room for every command)
+        if ctx.quick:
+            cfgs.append((front, 'routes', consts(front, 3, ['a'], 1, 2, 2, ['r200', 'r403', 'nack'], [])))
+        else:
+            cfgs.append((front, 'routes', consts(front, 5, ['a'], 2, 2, 4, ['r200', 'r403', 'nack'], [])))
     cov = {}
-    for front, name, cs in cfgs:
+    from concurrent.futures import ThreadPoolExecutor
+
+    def big(job):
+        front, name, cs = job
         cfgp = os.path.join(tlc.BUILD, 'NfdReg_a_%s_%s_%s.cfg' % (front, name, ctx.tier))
         tlc.write_cfg(cfgp, constants=cs, invariants=INVS)
-        r = tlc.run('NfdReg', cfgp, workers=workers, coverage=(name != 'conc'), tag='c17a')
+        return job, tlc.run('NfdReg', cfgp, workers=workers, coverage=(name == 'routes' or (name == 'replies' and not ctx.quick)),
+                            tag='c17a')
+    with ThreadPoolExecutor(max_workers=2) as ex:
+        done = list(ex.map(big, cfgs))
+    for (front, name, cs), r in done:
         ctx.add_tlc('NfdReg %s/%s' % (front, name), r)
         if r.violated:
             ctx.violation('C17/spec/%s/%s' % (front, r.violated), 'TLC: %s violated in NfdReg (%s/%s, correct design)' % (
@@ -449,25 +502,33 @@ def stage_a(ctx):
     for a in INTERNAL + sorted(ENV):
         if cov.get(a, 0) == 0:
             raise tlc.MachineryError('vacuous: action %s never taken in stage A' % a)
-    # witnesses
+    # witnesses and deviation counterexamples: many tiny TLC runs, run side by side
+    from concurrent.futures import ThreadPoolExecutor
+    jobs = []
     for front, wname, routes, maxconn, ncalls in (('v2', 'W_Waiting', 0, 1, 3), ('v2', 'W_Slept', 0, 1, 2), ('v2', 'W_TwoCmds', 0, 1, 2),
-                                                  ('legacy', 'W_FailNack', 0, 1, 1), ('legacy', 'W_Reconnect', 2, 2, 4)):
-        wp = os.path.join(tlc.BUILD, 'NfdReg_w.cfg')
-        tlc.write_cfg(wp, constants=consts(front, ncalls, ['a'], routes, maxconn, 2, ['r200', 'nack'], []), invariants=[wname])
-        rw = tlc.run('NfdReg', wp, workers=2, heavy=False, tag='c17w')
-        if rw.violated != wname:
-            raise tlc.MachineryError('witness %s not reachable' % wname)
+                                                  ('legacy', 'W_FailNack', 0, 1, 1), ('legacy', 'W_Reconnect', 1, 2, 2),
+                                                  ('v2', 'W_Reconnect', 2, 2, 4)):
+        wp = os.path.join(tlc.BUILD, 'NfdReg_w_%s_%s.cfg' % (front, wname))
+        tlc.write_cfg(wp, constants=consts(front, ncalls, ['a'], routes, maxconn, 3, ['r200', 'nack'], []), invariants=[wname])
+        jobs.append(('witness', front, wname, wp))
     # every named deviation breaks the clause it is said to break (the properties can see each defect)
     for front in ('v2', 'legacy'):
         for d in DEVS_OF[front]:
-            dp = os.path.join(tlc.BUILD, 'NfdReg_d.cfg')
-            routes = 0
-            tlc.write_cfg(dp, constants=consts(front, 2, ['a'], routes, 1, 2, ['r200', 'r400', 'garbage'], [d]),
-                          invariants=['NothingBad'])
-            rd = tlc.run('NfdReg', dp, workers=2, heavy=False, tag='c17d')
-            if rd.violated != 'NothingBad':
-                raise tlc.MachineryError('deviation %s (%s) does not violate any property clause in the spec' % (d, front))
-            ctx.add_tlc('NfdReg %s deviation %s -> counterexample' % (front, d), rd)
+            dp = os.path.join(tlc.BUILD, 'NfdReg_d_%s_%s.cfg' % (front, d))
+            tlc.write_cfg(dp, constants=consts(front, 2, ['a'], 0, 1, 2, ['r200', 'r400', 'garbage'], [d]), invariants=['NothingBad'])
+            jobs.append(('deviation', front, d, dp))
+
+    def one(job):
+        return job, tlc.run('NfdReg', job[3], workers=1, heavy=False, tag='c17s')
+    with ThreadPoolExecutor(max_workers=ctx.pick(4, 8)) as ex:
+        results = list(ex.map(one, jobs))
+    for (kind, front, what, _), r in results:
+        if kind == 'witness' and r.violated != what:
+            raise tlc.MachineryError('witness %s (%s) not reachable' % (what, front))
+        if kind == 'deviation':
+            if r.violated != 'NothingBad':
+                raise tlc.MachineryError('deviation %s (%s) does not violate any property clause in the spec' % (what, front))
+            ctx.add_tlc('NfdReg %s deviation %s -> counterexample' % (front, what), r)
 
 
 def run(ctx):
@@ -481,20 +542,47 @@ def run(ctx):
                        'SHA-256 from hashlib is the reference for digests',
                        'v2: a validation failure of the reply is injected by substituting the validator at NDNApp.express '
                        '(NfdRegister hard-wires pass_all)']
+    import time
+    t0 = time.time()
     if 'A' in ctx.stages:
         stage_a(ctx)
+        ctx.note('stage A wall %.0fs' % (time.time() - t0))
+    t1 = time.time()
+    forced = {}
+    if 'B' in ctx.stages or 'C' in ctx.stages:
+        # which named deviations does the code under test have? (small graph, every deviation optional)
+        for front in ('v2', 'legacy'):
+            learn = {'has': set(), 'hasnot': set()}
+            stage_b(ctx, front, 'learn', consts(front, 2, ['a'], 0, 1, 0 if front == 'legacy' else 1, ['r200', 'r400', 'garbage'],
+                                                DEVS_OF[front]), 0, 2, max_paths=ctx.pick(200, 1500), learn=learn)
+            unknown = [d for d in DEVS_OF[front] if d not in learn['has'] and d not in learn['hasnot']]
+            if learn['has'] & learn['hasnot']:
+                ctx.violation('C17/%s/inconsistent-deviation' % front, 'the code shows and does not show %s' % sorted(
+                    learn['has'] & learn['hasnot']), {'learn': {k: sorted(v) for k, v in learn.items()}})
+            forced[front] = (sorted(learn['has'] - learn['hasnot']), unknown)
+            ctx.note('%s: deviations of NfdReg.tla the code under test has: %s; not decided: %s' % (front, forced[front][0], unknown))
     if 'B' in ctx.stages:
         for front in ('v2', 'legacy'):
-            stage_b(ctx, front, 'replies', 2, ['a'], 0, 1, 1, ALL_KINDS, max_paths=ctx.pick(1500, None))
-            stage_b(ctx, front, 'conc', 3, ['a'], 0, 1, ctx.pick(2, 3), ['r200', 'r400'], max_paths=ctx.pick(1500, 12000))
-            stage_b(ctx, front, 'routes', 5, ['a'], 2, 2, 1, ['r200', 'nack'], max_paths=ctx.pick(600, 6000))
+            has, unk = forced[front]
+            stage_b(ctx, front, 'replies', consts(front, 2, ['a'], 0, 1, 1, ALL_KINDS, unk, has), 0, 2,
+                    max_paths=ctx.pick(500, None))
+            stage_b(ctx, front, 'conc', consts(front, 3, ['a'], 0, 1, ctx.pick(1, 2), ctx.pick(['r200'], ['r200', 'r400']), unk, has), 0, 3,
+                    max_paths=ctx.pick(500, 15000))
+            # one declared route, two connections, one user register in between: 3 commands fit in clock 0..2
+            stage_b(ctx, front, 'routes', consts(front, 3, ['a'], 1, 2, 2, ['r200', 'nack'], unk, has, verbs=('register',)), 1, 3,
+                    max_paths=ctx.pick(300, 8000))
+            if not ctx.quick:
+                stage_b(ctx, front, 'routes2', consts(front, 4, ['a'], 2, 2, 3, ['r200', 'nack'], unk, has, verbs=('register',)), 2, 4,
+                        max_paths=8000)
         recs = stage_resp_b(ctx)
         judge_resp(ctx, recs, 'b')
+        ctx.note('stage B wall %.0fs (incl. learning)' % (time.time() - t1))
+    t2 = time.time()
     if 'C' in ctx.stages:
-        n = ctx.pick(120, 2500)
+        n = ctx.pick(90, 2500)
         for front in ('v2', 'legacy'):
-            stage_c(ctx, front, 0, n)
-            stage_c(ctx, front, 2, n // 3)
+            stage_c(ctx, front, 0, n, forced[front])
+            stage_c(ctx, front, 2, n // 3, forced[front])
         recs = []
         for _ in range(ctx.pick(400, 20000)):
             f = random_resp(ctx.rng)
@@ -502,6 +590,7 @@ def run(ctx):
         judge_resp(ctx, recs, 'c')
         ctx.traces += len(recs)
         ctx.evaluations += len(recs)
+        ctx.note('stage C wall %.0fs' % (time.time() - t2))
 
 
 def replay(ctx, path):
